@@ -194,7 +194,7 @@ Proof.
     destruct I2 as [_ I2]. exact I2. }
   cbn [fst snd] in Hp.
   destruct (ind <? Z.of_N col)%Z eqn:EC.
-  - apply Z.ltb_lt in EC. apply ws_bind, ws_put.
+  - apply Z.ltb_lt in EC. destruct (BLOCK_NESTING_MAX <=? N.of_nat (length inds))%N; [exact I|]. apply ws_bind, ws_put.
     set (s1 := set_indent (Z.of_N col) ({| in_indent := ind; in_needs_block_end := true |} :: inds) s).
     assert (HI1 : SI s1) by (apply si_set_indent; [exact HI|cbn [sorted_from in_indent]; auto]).
     assert (F1 : fr s s1) by (unfold fr, s1; sproj; auto).
@@ -631,8 +631,10 @@ Proof.
   match goal with |- context [if ?a then modify _ else ret tt] => generalize a; intros ifm end.
   sks.
   wb. apply ws_skip_non_blank. kstep.
-  wb. apply ws_look_ch. intros c s2 Hs2 B2 _ _.
-  assert (K2 : keeps s1 s2) by (apply keeps_input; exact Hs2).
+  wb. apply ws_mono with (Q := fun _ s2 => keeps s1 s2).
+  { dif; [|apply ws_ret, keeps_refl].
+    apply ws_look_ch. intros c s2 Hs2 B2 _ _. apply keeps_input; exact Hs2. }
+  intros c s2 K2. cbv beta.
   assert (HI2 : SI s2) by (eapply si_keeps; [exact K2|assumption]).
   wb. apply ws_mono with (Q := fun _ s' => keeps s2 s').
   { dif; [|apply ws_ret, keeps_refl].
@@ -655,7 +657,8 @@ Proof.
     destruct F4 as (_ & T4 & L4).
     wb. apply ws_mono with (Q := fun _ s' => SI s' /\ fr s4 s').
     { dif; [|apply ws_ret; split; [assumption|apply fr_refl]].
-      dif; [apply ws_fail|]. apply ws_insert_token; [assumption|lia|]. intros; split; assumption. }
+      dif; [apply ws_fail|]. dif; [|apply ws_ret; split; [assumption|apply fr_refl]].
+      apply ws_insert_token; [assumption|lia|]. intros; split; assumption. }
     intros _ s5 [HI5 (_ & T5 & L5)]. cbv beta.
     wb. apply ws_roll_indent; [assumption| |].
     { intros n Hn. injection Hn as <-. lia. }
